@@ -5,10 +5,10 @@
        units in ascending / descending order: per unit `N` (no circular error) or the index of
        the request that gets the CircularDependency diagnostic, blank-separated; `!` prefix if
        the run did not reach a final state;
-   explore2 : all interleavings of the repaired protocol with 2 workers (state budget 30000):
+   explore2 : all interleavings of the repaired protocol with 2 workers (at most 8 units, state budget 20000):
        `states:stuck:distinct_final_vectors[:vector,...]` or `skip`;
    old1 : `1` iff the pre-fix protocol (cache before outcome) can reach a stuck state with one
-       worker (budget 30000 states), `0` if not, `skip` if over budget. *)
+       worker (budget 20000 states), `0` if not, `skip` if over budget. *)
 open Util
 open Conc
 let parse_unit s =
@@ -73,11 +73,13 @@ let () =
       let asc = seq_from 0 n in
       let a = seq_run deps false asc in
       let d = seq_run deps false (Stdlib.List.rev asc) in
-      let e = match explore deps false 2 30000 with
+      let has_swallow = Stdlib.List.exists (fun rs -> Stdlib.List.exists (fun (_, sw) -> sw) rs) deps in
+      let e = match (if n <= 8 then explore deps false 2 20000 else None) with
         | None -> "skip"
         | Some (st, stuck, fin) ->
           Printf.sprintf "%d:%d:%d:%s" st stuck (Stdlib.List.length fin) (Stdlib.String.concat "," (Stdlib.List.sort compare fin)) in
-      let o = match explore deps true 1 30000 with
+      (* without a discarded error the two protocols have the same steps *)
+      let o = if not has_swallow then "0" else match explore deps true 1 20000 with
         | None -> "skip"
         | Some (_, stuck, _) -> if stuck > 0 then "1" else "0" in
       print_endline (Stdlib.String.concat "|" [a; d; e; o])
